@@ -3,10 +3,11 @@
    theorem and are checked against real zlib only by the correspondence runs (an independent RFC 7692 peer, all 256
    parameter combinations): a fresh deflater and a fresh inflater are in sync; if they are in sync, inflating what the
    deflater produced for m returns m and leaves them in sync.  The negotiated window sizes are parameters of the oracle. *)
+From Coq Require Import String.
 From Coq Require Import List NArith Bool.
 From Coq.Strings Require Import Byte.
 From Model Require Import Bytes Frame Response Conn Compression.
-From Proofs Require Import CompressionFacts.
+From Proofs Require Import CompressionFacts NegotiationFacts.
 Import ListNotations.
 
 (* for every message history with per-message compress flags, both no_context_takeover settings, and every way of
@@ -72,3 +73,33 @@ Print Assumptions C06_receive_uses_oracle_in_order.
 Theorem C06_plain_message_bypasses_inflater : forall c f0 rest,
   f_rsv1 f0 = false -> fst (build_message c (f0 :: rest)) = c.
 Proof. exact build_message_plain_untouched. Qed.
+
+(* ---------- "for every negotiated configuration" ---------- *)
+(* the extension value a server renders for ANY permessage-deflate configuration -- each window size absent or 8..15,
+   each no_context_takeover flag absent or present (324 configurations), the parameters in any order -- is read back by
+   parse_extension / Deflate.from_options as exactly that configuration (an absent window size is 15); finite domain,
+   decided by evaluation inside Coq and lifted *)
+Theorem C06_every_configuration_is_read_back : forall ps, in_domain ps ->
+  process_extensions [render_ext false false ps] None = Some (Some (cfg_of ps)).
+Proof. exact negotiation_roundtrip. Qed.
+Print Assumptions C06_every_configuration_is_read_back.
+
+(* quoted window sizes and blanks around ';' and '=' do not change the reading *)
+Theorem C06_configuration_spellings : forall quoted spaced ps, In ps all_param_sets ->
+  process_extensions [render_ext quoted spaced ps] None = Some (Some (cfg_of ps)).
+Proof. exact negotiation_roundtrip_spelling. Qed.
+
+(* through the reply parser and the handshake decision: Ready with exactly this configuration *)
+Theorem C06_configuration_through_the_handshake : forall ps, In ps all_param_sets ->
+  on_response (str "s3pPLMBiTxaQ9kYGzzhZRbK+xOo="%string) (parse_response (reply_for (render_ext false false ps)))
+  = HReady None (Some (cfg_of ps)).
+Proof. exact negotiation_ready. Qed.
+Print Assumptions C06_configuration_through_the_handshake.
+
+(* the enumerated domain is the one stated *)
+Theorem C06_configuration_domain : forall swb cwb (snct cnct : bool),
+  (match swb with Some n => 8 <= n <= 15 | None => True end)%N ->
+  (match cwb with Some n => 8 <= n <= 15 | None => True end)%N ->
+  In ((match swb with Some n => [PSwb n] | None => [] end) ++ (match cwb with Some n => [PCwb n] | None => [] end) ++
+      (if snct then [PSnct] else []) ++ (if cnct then [PCnct] else [])) all_param_sets.
+Proof. exact all_param_sets_spec. Qed.
